@@ -10,6 +10,7 @@ The model answers and the acceptance relation are the Lean definitions of `Sb.Mo
 import Sb.Corr.Codec
 import Sb.Corr.Container
 import Sb.Corr.YawOps
+import Sb.Corr.LightOps
 
 open Sb.Corr
 
@@ -28,6 +29,7 @@ def dispatch (op : String) (args impl : List String) : Verdict :=
   | "varu_grid" => opVaruGrid args impl
   | "crcupd" => opCrcUpd args impl
   | "fcorr" => opFcorr args impl
+  | "lightq" => opLightq args impl
   | "traj" => opTraj args impl
   | "yawq" => opYawq args impl
   | "facc" => opFacc args impl
